@@ -133,7 +133,7 @@ impl Property for C04 {
     }
     fn cases(&self, tier: Tier) -> usize {
         match tier {
-            Tier::Quick => 12_000,
+            Tier::Quick => 100_000,
             Tier::Thorough => 400_000,
         }
     }
